@@ -40,6 +40,7 @@ def run(ctx):
     _operators(ctx, methods)
     _cmp(ctx, methods)
     _init(ctx, methods)
+    version_immutable(ctx, 'C18.D2')
     _hash(ctx, methods)
     _nearest(ctx, m, methods)
 
@@ -59,6 +60,19 @@ def _operators(ctx, methods):
             ctx.error('C18.D1', 'Version.%s: body is not a single return' % name)
             continue
         call = '%s._cmp(%s)' % (a[0], a[1])
+        # an operator derived from another one with the operands SWAPPED (`other < self`) never reaches _cmp's coercion
+        # of a string operand: Python hands the comparison back to the reflected Version method, which swaps again
+        swapped = [c for c in ast.walk(body[0].value) if isinstance(c, ast.Compare) and isinstance(c.left, ast.Name)
+                   and c.left.id == a[1] and any(isinstance(x, ast.Name) and x.id == a[0] for x in c.comparators)]
+        if swapped and call not in norm(body[0].value):
+            ctx.violation('C18.D1', '%s::Version.%s' % (F, name), norm(body[0]),
+                          "Version('3.0') %s '2.0' raises RecursionError: `%s` puts the string on the left, str has no such "
+                          "comparison with a Version, Python calls the reflected Version method with the operands swapped back, and "
+                          "so on without end -- strings no longer compare like the versions they spell" % (OPSYM[name], norm(swapped[0])),
+                          'Version.%s is derived from another operator with swapped operands instead of from _cmp' % name,
+                          file=F, line=fn.lineno, engine='E9')
+            n += 1
+            continue
         got = set()
         try:
             for c in (-1, 0, 1):
@@ -701,3 +715,53 @@ def _nearest(ctx, m, methods):
                                   'the "remember newer version" branch is guarded by %r' % t, file=F,
                                   line=node.lineno, engine='E6')
     ctx.floor('nearest() return statements', nret, 3)
+
+
+def version_immutable(ctx, rule):
+    """Versions are values: version_nums is stored as a tuple, so `num1 = self.version_nums; num1 += pad` in _cmp builds a
+    new tuple.  Stored as a list, the same statement extends the version's own list in place -- comparing 3 with 3.0.0
+    (which every dump does through its version gates) pads the shared constant VER_3_0, and str(version), i.e. the
+    `ver:` header of every later document, changes."""
+    m = ctx.model
+    try:
+        init = m.func(MOD, 'Version.__init__')
+        cls = m.cls(MOD, 'Version')
+    except AnalysisError as e:
+        ctx.error(rule, str(e))
+        return
+    stores = [n for n in ast.walk(init) if isinstance(n, ast.Assign) and norm(n.targets[0]).endswith('.version_nums')
+              and not norm(n.value).endswith('.version_nums')]
+    if not stores:
+        ctx.error(rule, 'Version.__init__: assignment of version_nums not found')
+        return
+    st = stores[0]
+    v = st.value
+    is_tuple = (isinstance(v, ast.Call) and norm(v.func) == 'tuple') or isinstance(v, ast.Tuple)
+    is_list = isinstance(v, (ast.List, ast.ListComp)) or (isinstance(v, ast.Call) and norm(v.func) == 'list')
+    # in-place operations on an alias of version_nums anywhere in the class
+    inplace = []
+    for fn in [n for n in ast.walk(cls) if isinstance(n, ast.FunctionDef)]:
+        aliases = {norm(a.targets[0]) for a in ast.walk(fn) if isinstance(a, ast.Assign) and len(a.targets) == 1
+                   and isinstance(a.targets[0], ast.Name) and norm(a.value).endswith('.version_nums')}
+        for n in ast.walk(fn):
+            if isinstance(n, ast.AugAssign) and norm(n.target) in aliases:
+                inplace.append((fn, n))
+            if isinstance(n, ast.Call) and isinstance(n.func, ast.Attribute) and norm(n.func.value) in aliases \
+                    and n.func.attr in ('append', 'extend', 'insert', 'pop', 'sort', 'reverse', 'remove'):
+                inplace.append((fn, n))
+    where = '%s:%d' % (F, st.lineno)
+    if is_tuple:
+        ctx.ob(rule, 'version_nums is a tuple: the padding `+=` in comparisons cannot change a Version (%d augmented '
+                     'assignment(s) on aliases)' % len(inplace), True, where)
+    elif is_list and inplace:
+        fn, n = inplace[0]
+        ctx.violation(rule, '%s::Version.%s' % (F, fn.name), norm(n),
+                      "dump a grid parsed from ver:\"3\" twice (or dump any 3.0 grid after a ver:\"3.0.0\" document was handled): the "
+                      "version gates compare the grid's version with VER_3_0, `%s` extends the list of the shorter operand in place, "
+                      "and the header is written `ver:\"3.0\"` / `ver:\"3.0.0\"` the second time" % norm(n),
+                      'version_nums is stored as a list (`%s`) and padded in place during comparisons: comparing two versions '
+                      'changes them' % norm(st)[:80], file=F, line=n.lineno, engine='E7')
+    elif is_list:
+        ctx.ob(rule, 'version_nums is a list but no method changes it in place', True, where)
+    else:
+        ctx.error(rule, 'Version.__init__ stores version_nums as `%s`; mutability not decided' % norm(v)[:60])
